@@ -49,6 +49,7 @@ func checkC20(c *core.Ctx, r *core.Report) {
 	c20AliasRoles(c, r)
 	c20AliasPairScope(c, r)
 	c20RecursiveResults(c, r)
+	c20EveryColumn(c, r)
 }
 
 // c20NotifyState: the notification row's last_sent_time / last_alert_state are read by shouldSendNotification as
